@@ -272,6 +272,12 @@ def run(chk):
                 "argv; oracle: file, flags, targets = outputs of exactly the selected configured builds, exit status; model compared on spawn "
                 "list + exit status; non-trivial = a selection served from the cache of an earlier run; distinct by scenario hash")
     scs = [gen_scenario(chk.seed, i) for i in range(n)]
+    # the directed task scenarios of C16 (the task is runnable everywhere; `build:` may differ between the builds' definitions of it):
+    # ninja is asked for exactly the outputs of the runnable matches whose definition says `build: true`
+    from . import c16
+    for i in range(n // 3):
+        d = c16.directed_scenario(chk.seed + 1818, i)
+        scs.append({"project": d["project"], "invocations": ([d["warmup"]] if d.get("warmup") else []) + d["invocations"]})
     for sc, steps in common.parallel_map(worker, scs):
         judge(chk, sc, steps)
     for nb, na, ln in ([(24, 40, 60)] if chk.tier == "quick" else [(24, 40, 60), (46, 50, 8), (60, 60, 40)]):
